@@ -83,6 +83,11 @@ def gen(seed, idx, tier):
             if r.random() < 0.2 and n > 1:
                 # repeat an entry: second Subscribe for the same subscription in one message
                 entries.append(list(entries[0]))
+            if r.random() < 0.15:
+                # a peer that is server and client at once bundles other entries with its Subscribes: the
+                # acknowledgement of a Subscribe of ours, a FindService, an offer - in front of or between them
+                other = r.choice([["suback", 0x5555, 1, 1, 1, 3, 0], ["suback", 0x5555, 1, 1, 1, 0, 0], ["find", 0x7777, 0xFFFF, 0xFF, 0xFFFFFFFF, 3], ["offer", 0x6666, 1, 1, 0, 3]])
+                entries.insert(r.choice([0, 0, r.randrange(len(entries) + 1)]), other)
             sid = sess.get((p, ch), 0) + 1
             sess[(p, ch)] = sid
             if r.random() < 0.1:
